@@ -264,6 +264,14 @@ func c17Subjects() []c17Subject {
 			w, _ := limit.NewWindowedLimit("w", 1e8, 1e8, 10, 0, d, nil)
 			return limitMethods(w, c17Method{"Delegate.OnSample", true, func(g, a int) { d.OnSample(0, int64(1+a%9), 10+a%20, a%7 == 0) }}), func() {}
 		}},
+		{"traced(settable,debug-logger)+delegate", func() ([]c17Method, func()) {
+			d := limit.NewSettableLimit("t", 10, reg())
+			w := limit.NewTracedLimit(d, debugDiscardLogger{}) // a logger with debug output enabled: the wrapper's tracing code really runs
+			return limitMethods(w, c17Method{"Delegate.SetLimit", true, func(g, a int) { d.SetLimit(1 + a%20) }}), func() {}
+		}},
+		mkLimit("traced(aimd,debug-logger)", func() core.Limit {
+			return limit.NewTracedLimit(limit.NewAIMDLimit("t", 10, 0.9, 1, nil), debugDiscardLogger{})
+		}),
 		{"traced(settable)+delegate", func() ([]c17Method, func()) {
 			d := limit.NewSettableLimit("t", 10, reg())
 			w := limit.NewTracedLimit(d, limit.NoopLimitLogger{})
